@@ -35,7 +35,7 @@ fn key_rms(aops: &[AOp]) -> Vec<(Vec<u8>, &Clk)> {
 
 fn clause_class(clause: &str) -> &'static str {
     match clause {
-        "ktable.eq" | "replay.eq" | "residue" | "quiesce.eq" | "laws.eq" | "redundant.eq" | "mergevsops.eq" | "shadow" | "serde.eq" | "reset.eq" => "eq",
+        "ktable.eq" | "replay.eq" | "residue" | "quiesce.eq" | "laws.eq" | "redundant.eq" | "mergevsops.eq" | "shadow" | "serde.eq" | "reset.eq" | "restart.ghost" => "eq",
         "serde.ser" => "ser",
         "validate.origin" | "validate.deliver" | "validate.any" => "validate",
         "vmerge.correct" | "vmerge.sym" | "vmerge.misuse" => "vmerge",
@@ -60,8 +60,12 @@ pub fn triggers(f: &Facts, failure: &Failure) -> Vec<&'static str> {
         }
         _ => false,
     });
+    // F1: register values carry whole-map contexts that key removes and merges truncate (this also
+    // changes what a later reset_remove finds to subtract)
+    if nested_reg && class == "reset" && (!rms.is_empty() || f.merged) {
+        t.push("F1");
+    }
     if is_map && (class == "reads" || class == "eq" || class == "panic") {
-        // F1: register values carry whole-map contexts that key removes and merges truncate
         if nested_reg && (!rms.is_empty() || f.merged) {
             t.push("F1");
         }
@@ -104,6 +108,10 @@ pub fn triggers(f: &Facts, failure: &Failure) -> Vec<&'static str> {
     }
     if class == "vmerge" && failure.detail.contains("DoubleSpentDot") && f.aops.iter().any(|o| matches!(&o.info, AInfo::Dotted { leaf: Leaf::Add(ms), .. } if ms.len() >= 2)) {
         t.push("F6");
+    }
+    // F10: Map::validate_merge looks into the nested values only when the two entry clocks are concurrent
+    if failure.clause == "vmerge.misuse" && is_map && failure.detail.contains("nested under key") {
+        t.push("F10");
     }
     t.dedup();
     t
